@@ -274,17 +274,17 @@ def encode_spo(
     """
     rows: list[jelly.RdfStreamRow] = []
     s = next(terms)
-    if repeated_terms[Slot.subject] != s:
+    if s is None or repeated_terms[Slot.subject] != s:
         extra_rows = term_encoder.encode_spo(s, Slot.subject, statement)
         rows.extend(extra_rows)
         repeated_terms[Slot.subject] = s
     p = next(terms)
-    if repeated_terms[Slot.predicate] != p:
+    if p is None or repeated_terms[Slot.predicate] != p:
         extra_rows = term_encoder.encode_spo(p, Slot.predicate, statement)
         rows.extend(extra_rows)
         repeated_terms[Slot.predicate] = p
     o = next(terms)
-    if repeated_terms[Slot.object] != o:
+    if o is None or repeated_terms[Slot.object] != o:
         extra_rows = term_encoder.encode_spo(o, Slot.object, statement)
         rows.extend(extra_rows)
         repeated_terms[Slot.object] = o
@@ -339,7 +339,7 @@ def encode_quad(
     term_encoder.new_statement()
     rows = encode_spo(terms, term_encoder, repeated_terms, quad)
     g = next(terms)
-    if repeated_terms[Slot.graph] != g:
+    if g is None or repeated_terms[Slot.graph] != g:
         extra_rows = term_encoder.encode_graph(g, quad)
         rows.extend(extra_rows)
         repeated_terms[Slot.graph] = g
